@@ -25,7 +25,7 @@ CHECKS = {
  "C04": dict(engine="E1", ref="8/C04",
    technique="explicit-state BFS over real omap.Map histories, sorted reference map oracle incl. all iterator walks and seeks per state",
    text="All Set/Delete/Clear histories over K keys to closure, natural and reversed comparator, every Seek target and full Next/Prev walk per state, zero Map and copy semantics.",
-   note="Small scope K<=6 keys, 2 values; a second search with 7/8 keys and one value; an unmerged enumeration to depth 5/6."+LONG+"maps of 300/700 keys."),
+   note="Small scope K<=6 keys, 2 values; a second search with 7/8 keys and one value; an unmerged enumeration to depth 5/6; all 4/5-step histories of a float64-keyed map over NaN, +-Inf and three ordinary keys."+LONG+"maps of 300/700 keys."),
  "C05": dict(engine="E1", ref="8/C05",
    technique="explicit-state BFS over real heapq.Queue histories with multiset/minimality oracle; known-findings differential against a counterfactually repaired build",
    text="All Add/Pop/Remove(i)/Set/Reorder/Clear/NewWithData histories over V values up to N elements explored to closure, merged by heap array; Front/Pop minimality, Remove=Peek, multiset conservation and sorted drain checked at every transition; Sort checked on all short sequences.",
@@ -81,7 +81,7 @@ CHECKS = {
  "C18": dict(engine="E1+E4", ref="8/C18",
    technique="exhaustive enumeration of all operand combinations over a 3-element universe incl. nil/empty + BFS over mutation histories",
    text="Every predicate/operation on all operand pairs and argument lists; mutation histories to closure with membership/Len after each step; non-nil-ness and non-aliasing of returned sets.",
-   note="Universe {0,1,2} (Intersect also over all 4-lists of the subsets of a 4-element universe; operands aliased with the receiver; Keys on Set-typed arguments); map iteration order is the only uncontrolled nondeterminism and the oracle is insensitive to it."),
+   note="Universe {0,1,2} (Intersect also over all 4-lists of the subsets of a 4-element universe; operands aliased with the receiver; Keys on Set-typed arguments; all 4/6-step histories of a float set with NaN members, Pop excluded there); map iteration order is the only uncontrolled nondeterminism and the oracle is insensitive to it."),
  "C19": dict(engine="E2", ref="8/C19",
    technique="exhaustive enumeration of all behaviour-relevant random outcomes (choice tree over the RNG) on the real Counter with exact rational probability propagation",
    text="For every stream within bounds the real Counter is run under every partition class of the random source; exact regime, Len<=size, Count=Len*2^k monotone, and E[Count]==true distinct count exactly (rational arithmetic), plus per-step martingale conditions.",
